@@ -124,7 +124,8 @@ class World:
                 'second_owner_create_refused', 'same_owner_recreate',
                 'spec_recreate_refused', 'gc_with_live_and_dead',
                 'gc_reclaimed', 'gc_passes_preempted', 'gc_open_entries',
-                'gc_entry_taken_over_by_newcomer', 'unlink_all_removed',
+                'gc_entry_taken_over_by_newcomer', 'gc_stat_unlink_windows',
+                'gc_entry_retaken_in_window', 'unlink_all_removed',
                 'unlink_all_skipped_foreign', 'net_requests',
                 'net_replies_ok', 'net_replies_error',
                 'net_same_ip_after_restart', 'svc_restarts',
@@ -386,13 +387,18 @@ class World:
         pre = dict(getattr(self, attr))
         self._gc_probe(pre, live)
         during = {}
+        windows = {}
         for item in op.get('during') or ():
-            during.setdefault(item['at'], []).extend(item['ops'])
+            if 'window' in item:
+                windows.setdefault(item['window'], []).extend(item['ops'])
+            else:
+                during.setdefault(item['at'], []).extend(item['ops'])
         self.gc_pass = {
             'kind': kind, 'tick': 0, 'born': {}, 'added': {}, 'pre': pre,
-            'touched': set(),
+            'touched': set(), 'window': set(), 'windows': {},
             'dead_at_start': {o for o in pre.values() if not live(o)},
             'during': during, 'op': op['op'], 'ran': 0}
+        self.gc_pass['windows'] = windows
         self.seam.on_checkpoint = self._gc_checkpoint
         try:
             call()
@@ -435,7 +441,9 @@ class World:
             if key not in actual:
                 holder = ref[key]
                 if self._gc_must_survive(key, holder):
-                    self.fail('C14:gc-removed-live:%s' % kind,
+                    self.fail('C14:gc-removed-live:%s%s' % (
+                        kind, ':in-stat-unlink-window'
+                        if key in gcp['window'] else ''),
                               'garbage collection removed %s %r whose owner '
                               '%r exists (and has existed ever since it '
                               'holds the entry)%s' % (
@@ -465,16 +473,36 @@ class World:
             elif final and not self._gc_must_survive(key, ref[key]):
                 self.probes['gc_open_entries'] += 1
 
-    def _gc_checkpoint(self, count, _kind):
+    def _entry_key(self, kind, name):
+        if kind == 'vip':
+            return name
+        if kind == 'rule':
+            parsed = rulefile.RuleMgr.get_rule(name)
+            return rule_key(parsed[0], parsed[1]) if parsed else None
+        return tuple(name.split('~'))
+
+    def _gc_checkpoint(self, count, ckind, what=None):
         gcp = self.gc_pass
         if gcp is None or self.in_nested or self.violation is not None:
             return
-        nested = gcp['during'].get(count)
+        nested = []
+        window_key = None
+        if ckind != 'unlink':
+            # "at": k counts the between-entries points (heartbeat / stat)
+            gcp['points'] = gcp.get('points', 0) + 1
+            nested = list(gcp['during'].get(gcp['points']) or ())
+        else:
+            # between the stat() that found this entry ownerless and its
+            # unlink(): "window" items name the entry
+            self.probes['gc_stat_unlink_windows'] += 1
+            window_key = self._entry_key(gcp['kind'], what)
+            nested += gcp['windows'].pop(what, ())
         if not nested:
             return
         self._gc_sync(final=False)
         attr = self._gc_tables(gcp['kind'])[0]
         self.in_nested = True
+        self.seam.on_checkpoint = None   # nested operations are atomic
         try:
             for nop in nested:
                 if self.violation is not None:
@@ -490,11 +518,17 @@ class World:
                 for key, holder in after.items():
                     if before.get(key) != holder:
                         gcp['born'][key] = gcp['tick']
+                        if key == window_key:
+                            # released and taken again inside the window of
+                            # exactly this entry (provenance)
+                            gcp['window'].add(key)
+                            self.probes['gc_entry_retaken_in_window'] += 1
                         if key in gcp['pre'] and holder in gcp['added']:
                             self.probes['gc_entry_taken_over_by_newcomer'] \
                                 += 1
         finally:
             self.in_nested = False
+            self.seam.on_checkpoint = self._gc_checkpoint
 
     def _gc_probe(self, ref, live):
         alive = sum(1 for o in ref.values() if live(o))
@@ -1492,6 +1526,39 @@ class Generator:
                                    'spec': dict(spec)})
                 nested.append({'op': 'spec_create', 'owner': taker,
                                'spec': dict(spec)})
+        dead_keys = [k for k in sorted(ref, key=repr)
+                     if ref[k] not in world.owners and
+                     not (kind == 'endpoint' and world.spec_owner_live(ref[k]))]
+        if dead_keys and rng.random() < 0.12:
+            # aim at the window between the stat() that finds an entry
+            # ownerless and its unlink(): release + re-take exactly that entry
+            key = rng.choice(dead_keys)
+            holder = ref[key]
+            wops = [n for n in nested if n['op'] == 'owner_add' and
+                    n['name'] == taker]
+            if kind == 'vip':
+                name = key
+                wops += [{'op': 'vip_free', 'owner': holder, 'ip': key},
+                         {'op': 'vip_alloc', 'owner': taker, 'ip': key}]
+            elif kind == 'rule':
+                chain, spec = self._rule_of_key(key)
+                name = rulefile.RuleMgr._filenameify(chain,
+                                                     rule_from_spec(spec))
+                wops += [{'op': 'rule_unlink', 'owner': holder,
+                          'chain': chain, 'rule': dict(spec)},
+                         {'op': 'rule_create', 'owner': taker,
+                          'chain': chain, 'rule': dict(spec)}]
+            else:
+                name = '~'.join(key)
+                spec = {'app': key[0], 'proto': key[1], 'ep': key[2],
+                        'rport': int(key[3]), 'pid': int(key[4]),
+                        'port': int(key[5])}
+                wops += [{'op': 'spec_unlink', 'owner': holder,
+                          'spec': dict(spec)},
+                         {'op': 'spec_create', 'owner': taker,
+                          'spec': dict(spec)}]
+            op['during'] = [{'window': name, 'ops': wops}]
+            return op
         op['during'] = [{'at': rng.randint(1, max(1, min(len(ref), 3))),
                          'ops': nested}]
         return op
@@ -1872,12 +1939,15 @@ class NetSim(enginemod.Engine):
         'entry-point section is empty in this tree)',
         'os.getpid in _run: the container pid carried by the op',
         'second scheduling granularity (C14): a garbage-collection pass can '
-        'be pre-empted between two entries - RuleMgr.garbage_collect at the '
-        'watchdog_lease.heartbeat() call it makes itself (lease supplied by '
-        'the harness, heartbeat interval 1e-9 s so that it fires after every '
-        'rule), VipMgr.garbage_collect and endpoints.garbage_collect before '
-        'each entry\'s os.stat(); the op carries the complete operations of '
-        'other owners that run there ("during": [{"at": k, "ops": [...]}])',
+        'be pre-empted (a) between two entries - RuleMgr.garbage_collect at '
+        'the watchdog_lease.heartbeat() call it makes itself (lease supplied '
+        'by the harness, heartbeat interval 1e-9 s so that it fires after '
+        'every rule), VipMgr.garbage_collect and endpoints.garbage_collect '
+        'before each entry\'s os.stat() - op field "during": [{"at": k, '
+        '"ops": [...]}]; (b) in all three loops between the stat() that '
+        'found an entry ownerless and the unlink() that reclaims it - '
+        '"during": [{"window": <entry file name>, "ops": [...]}].  The ops '
+        'are complete operations of other owners',
         'clock (virtual); directory listing order (sorted, then permuted by '
         'the op); tempfile.mktemp in _base_service (counter)',
     )
@@ -1907,10 +1977,10 @@ class NetSim(enginemod.Engine):
             'interleaving: one operation of one owner at a time, except that '
             'a GC pass (rule, vip, endpoint) can be pre-empted between two '
             'entries by complete owner_add/owner_del/create/release '
-            'operations of other owners.  NOT interleaved: the window '
-            'between stat() and unlink() of one entry inside a GC pass, the '
-            'inside of any non-GC operation, NetworkResourceService'
-            '.synchronize and _check_requests, two concurrent GC passes',
+            'operations of other owners, and between the stat() and the '
+            'unlink() of one entry.  NOT interleaved: the inside of any '
+            'non-GC operation, NetworkResourceService.synchronize and '
+            '_check_requests, two concurrent GC passes',
             'a kill lands before a mutating file-system call or an external '
             'command of the op; tmpfs keeps what was done before it',
             'virtual clock advances at least 1 s per op',
@@ -1932,7 +2002,9 @@ class NetSim(enginemod.Engine):
                 'with the same holder, whose holder did not exist then and '
                 'never appeared during the pass must be gone at its end; '
                 'entries whose holder appeared or vanished during the pass '
-                'are open',
+                'are open; a violation whose entry was released and taken '
+                'again inside its own stat()-unlink() window carries the '
+                'signature suffix :in-stat-unlink-window',
             ]
         else:
             out += [
@@ -2053,12 +2125,16 @@ class NetSim(enginemod.Engine):
         seam = world.seam
         seam_os = fsseam.SeamOS(seam)
         seam_glob = fsseam.SeamGlob(seam)
-        for mod in (rulefile, _base_service, _linux_base_service,
-                    treadmill.fs):
+        for mod in (_base_service, _linux_base_service, treadmill.fs):
             patches.set(mod, 'os', seam_os)
-        # scan loops without a callback of their own (VipMgr.garbage_collect,
-        # endpoints.garbage_collect): pre-emptible before each entry's stat()
-        scan_os = fsseam.SeamOS(seam, stat_checkpoint=True)
+        # GC scan loops.  RuleMgr.garbage_collect is pre-emptible at the
+        # heartbeat it makes itself; VipMgr.garbage_collect and
+        # endpoints.garbage_collect (no callback) before each entry's stat();
+        # all three in the window between that stat() and the unlink().
+        patches.set(rulefile, 'os', fsseam.SeamOS(
+            seam, unlink_checkpoint=True))
+        scan_os = fsseam.SeamOS(seam, stat_checkpoint=True,
+                                unlink_checkpoint=True)
         patches.set(vipfile, 'os', scan_os)
         patches.set(endpoints, 'os', scan_os)
         patches.set(endpoints, 'glob', seam_glob)
